@@ -81,7 +81,8 @@ class Kernel:
             order += [v + ".0" for v in self.order if v in self.tiles]
         return order
 
-    def prepare(self, tensors):
+    def prepare(self, tensors, zshape=None):
+        """zshape: optional dict index var -> extent; gives Z a declared shape."""
         order = self.loop_order()
         prepped = []
         for t, ranks in zip(tensors, self.ins):
@@ -97,13 +98,20 @@ class Kernel:
         for v in self.out:
             zranks += [v + ".1", v + ".0"] if v in self.tiles else [v]
         zorder = [r for r in order if r in zranks]
-        Z = Tensor(rank_ids=zorder, name="Z")
+        if zshape is not None and zorder:
+            Z = Tensor(rank_ids=zorder, shape=[zshape[r.split(".")[0]] for r in zorder], name="Z")
+        else:
+            Z = Tensor(rank_ids=zorder, name="Z")
         self.lorder, self.zorder = order, zorder
         return prepped, Z
 
     # -- execution -------------------------------------------------------------
-    def run(self, tensors):
-        ins, Z = self.prepare(tensors)
+    def run(self, tensors, zshape=None):
+        ins, Z = self.prepare(tensors, zshape)
+        return self.execute(ins, Z)
+
+    def execute(self, ins, Z):
+        """The loop nest proper (what a metrics session brackets)."""
         self.prepped = ins
         self.ledger = collections.Counter()
         self.bodies = collections.Counter()     # loop rank -> bodies executed
